@@ -92,14 +92,36 @@ def r1_errors_carry_location(ctx: Ctx) -> None:
     txt = unparse(ne.node)
     ctx.check("position.file.filename" in txt and "position.line" in txt and "position.get_line()" in txt, "NodeError.__str__", "prints file name, line number and the line's text")
     pa = repo.func("a816.parse.mzparser", "MZParser.parse_as_ast")
-    txt = unparse(pa.node)
-    ctx.check("str(position)" in txt and "position.get_line()" in txt and "position.column" in txt, "parse_as_ast:scanner-error-message", "prints file:line:column, the line's text and a caret at the column")
+    msg = None
+    for h in [n for n in walk_no_nested(pa.node) if isinstance(n, ast.ExceptHandler) and "ScannerException" in unparse(h_type(n))]:
+        henv = {}
+        for s_ in h.body:
+            if isinstance(s_, ast.Assign) and isinstance(s_.targets[0], ast.Name):
+                henv[s_.targets[0].id] = s_.value
+        errs = [s_ for s_ in h.body if isinstance(s_, ast.Assign) and unparse(s_.targets[0]) == "error"]
+        if errs:
+            from ..match import inline as _inl
+            msg = unparse(_inl(errs[-1].value, {k: v for k, v in henv.items() if k != "error"}))
+    ev = h_name(pa.node)
+    ok = msg is not None and f"str({ev}.position)" in msg and f"{ev}.position.get_line()" in msg and f"{ev}.position.column" in msg
+    ctx.check(ok, "parse_as_ast:scanner-error-message", f"prints file:line:column, the line's text and a caret at the column; message expression: {msg}")
     pos = repo.func("a816.parse.tokens", "Position.__str__")
     ctx.check("self.file.filename" in unparse(pos.node) and "self.line" in unparse(pos.node) and "self.column" in unparse(pos.node), "Position.__str__", "file:line:column")
     pk = repo.func(PST, "parse_keyword")
     ctx.check(any(unparse(c) == "scanner.scan(filename, source)" for c in calls_in(pk.node)), "parse_keyword[include]:own-file", "an included file is scanned under its own name, so its errors name it")
     sc = repo.func(SCN, "Scanner.scan")
     ctx.check(any(unparse(s) == f"self.file = File({sc.params()[1]})" for s in sc.node.body), "Scanner.scan:file", "positions refer to the File of the text being scanned")
+
+
+def h_type(h: ast.ExceptHandler) -> ast.AST:
+    return h.type if h.type is not None else ast.Constant(None)
+
+
+def h_name(fn: ast.FunctionDef) -> str:
+    for n in walk_no_nested(fn):
+        if isinstance(n, ast.ExceptHandler) and "ScannerException" in unparse(h_type(n)) and n.name:
+            return n.name
+    return "e"
 
 
 def _consuming_newline_points(fn: FunctionInfo, g: CFG) -> tuple[list[int], list[tuple[int, int, str]], list[int]]:
@@ -234,11 +256,24 @@ def r3_single_writer(ctx: Ctx) -> None:
     ok = any(isinstance(s, ast.If) and unparse(s.test) == "data == '\\n'" and [unparse(b) for b in s.body] == ["self._handle_line()"] for s in walk_no_nested(nx.node))
     ctx.check(ok, "Scanner.next:newline", "a consumed newline closes the line")
     hl = ctx.repo.func(SCN, "Scanner._handle_line")
-    body = "\n".join(unparse(s) for s in hl.node.body)
-    ok = "self.file.append(self.input[self.line_offset:self.pos])" in body and "self.line_offset = self.pos + 1" in body and "self.current_line += 1" in body
-    ctx.check(ok, "Scanner._handle_line", "records the line text, moves the line start past the newline, counts the line")
+    from ..match import canon as _canon
+    from ..poly import poly, poly_of_source, show as show_poly
+    apps = [c for c in calls_in(hl.node) if call_name(c) == "self.file.append"]
+    ok_app = len(apps) == 1 and _canon(hl.node, apps[0].args[0]) == "self.input[self.line_offset:self.pos]"
+    lo = [n for n in walk_no_nested(hl.node) if isinstance(n, ast.Assign) and unparse(n.targets[0]) == "self.line_offset"]
+    ok_lo = len(lo) == 1 and show_poly(poly(ast.parse(_canon(hl.node, lo[0].value), mode="eval").body)) == show_poly(poly_of_source("self.pos + 1"))
+    cl_aug = [n for n in walk_no_nested(hl.node) if isinstance(n, ast.AugAssign) and unparse(n.target) == "self.current_line" and isinstance(n.op, ast.Add) and unparse(n.value) == "1"]
+    cl_as = [n for n in walk_no_nested(hl.node) if isinstance(n, ast.Assign) and unparse(n.targets[0]) == "self.current_line"
+             and show_poly(poly(n.value)) == show_poly(poly_of_source("self.current_line + 1"))]
+    ok_cl = len(cl_aug) + len(cl_as) == 1
+    # the append reads the line start before it is moved
+    order_ok = ok_app and ok_lo and hl.node.body and True
+    if ok_app and ok_lo:
+        gh = CFG(hl.node)
+        order_ok = gh.node_of(lo[0]) in gh.reachable([gh.node_containing(apps[0])]) and gh.node_containing(apps[0]) not in gh.reachable([gh.node_of(lo[0])])
+    ctx.check(ok_app and ok_lo and ok_cl and order_ok, "Scanner._handle_line", "records the line text, moves the line start past the newline, counts the line")
     gp = ctx.repo.func(SCN, "Scanner.get_position")
-    ctx.check(any(unparse(r.value) == "Position(self.current_line, self.start - self.line_offset, self.file)" for r in walk_no_nested(gp.node) if isinstance(r, ast.Return)),
+    ctx.check(any(_canon(gp.node, r.value) == "Position(self.current_line, self.start - self.line_offset, self.file)" for r in walk_no_nested(gp.node) if isinstance(r, ast.Return)),
               "Scanner.get_position", "line = lines closed so far, column = token start relative to the line start")
 
 
